@@ -116,6 +116,21 @@ func genC16Msg(r *Rng, g *EvGen, offered *[]*mocrelay.Event, shown []*mocrelay.E
 		for n := pick(r, []int{1, 1, 2}); n > 0; n-- {
 			fs = append(fs, g.aimedFilter(shown))
 		}
+		if r.P(12) {
+			// several filters WITHOUT ids / authors / kinds / tags: windows and limits only (each filter has its own
+			// limit and its own window; one being exhausted must not open the door for the others' leftovers)
+			fs = nil
+			for n := r.Range(2, 3); n > 0; n-- {
+				f := &mocrelay.ReqFilter{Limit: ptr(int64(r.Range(1, 2)))}
+				switch r.Intn(3) {
+				case 0:
+					f.Until = ptr(int64(r.Range(1, 12)))
+				case 1:
+					f.Since = ptr(int64(r.Range(1, 12)))
+				}
+				fs = append(fs, f)
+			}
+		}
 		return &mocrelay.ClientReqMsg{SubscriptionID: pick(r, []string{"s", "t", "s", "t", ""}), ReqFilters: fs}
 	case 9:
 		return &mocrelay.ClientCountMsg{SubscriptionID: pick(r, []string{"c", "c", "s", ""}), ReqFilters: g.Filters()}
